@@ -1,3 +1,99 @@
 import PysphVerif.Driver.Common
-/-! Line-protocol driver for C09 (stub: not built yet). -/
-def main : IO Unit := PysphVerif.Driver.loopPure (fun _ => "bad-op")
+import PysphVerif.Gen.C09Equations
+/-!
+Line protocol for C09 (everything at `Float`, doubles as bit patterns):
+
+* `loop tag=<Tag> sf=<fl> sb=<01l> acc=<fl> d=<fl> dc=<fl> s=<fl> pre=<fl>`
+  runs the generated `loop_<Tag>` on the scalars in the generated parameter
+  order (self floats, self flags, accumulated `d_*`, read-only `d_*`, array
+  constants, `s_*`, precomputed scalars then vector components) and answers
+  `ok <fl>`: the `d_*[d_idx]` values the body leaves behind.
+* `pair tag=<Tag> sf= sb= acc= a=<fl> b=<fl> kw=<fl> kg=<fl> kd=<fl> kh=<fl> deltap=<f>`
+  runs `pair_<Tag>` (precomputed symbols + body) for destination particle `a`
+  and source particle `b` (fields in `P.fieldNames` order).  The kernel is a
+  table recorded from the real Python kernel object: `kw` = triples
+  `r,h,W`, `kg` = 5-tuples `r,h,gx,gy,gz`, `kd` = triples `r,h,dwdq`,
+  `kh` = triples `r,h,gradh`, looked up by the exact bit patterns of `(r, h)`;
+  a call the Python side did not make answers NaN (⇒ a visible mismatch).
+* `pre a= b= kw= kg= kd= kh= deltap=` answers every precomputed symbol in
+  `preNames` order.
+* `names` answers the field names and the precomputed names.
+Unknown or malformed input answers `bad-op`.
+-/
+namespace PysphVerif.Driver.C09
+open PysphVerif.Wire PysphVerif.PairSym PysphVerif.Gen.C09
+
+def nan : Float := 0.0 / 0.0
+
+def sameBits (x y : Float) : Bool := x.toBits == y.toBits
+
+/-- look `(r, h)` up in a flat table of rows of width `2 + n`; answer column `c` -/
+def lookupRH (n : Nat) (tab : List Float) (r h : Float) (c : Nat) : Float :=
+  let rec go (fuel : Nat) (t : List Float) : Float :=
+    match fuel with
+    | 0 => nan
+    | fuel + 1 =>
+      match t with
+      | r' :: h' :: rest =>
+        if sameBits r r' && sameBits h h' then rest.getD c nan
+        else go fuel (rest.drop n)
+      | _ => nan
+  go tab.length tab
+
+def tableKern (kw kg kd kh : List Float) (deltap : Float) : Kern Float where
+  kernel := fun _ _ _ r h => lookupRH 1 kw r h 0
+  gx := fun _ _ _ r h => lookupRH 3 kg r h 0
+  gy := fun _ _ _ r h => lookupRH 3 kg r h 1
+  gz := fun _ _ _ r h => lookupRH 3 kg r h 2
+  dwdq := fun r h => lookupRH 1 kd r h 0
+  gradh := fun _ _ _ r h => lookupRH 1 kh r h 0
+  deltap := deltap
+
+def parseBool? (s : String) : Option Bool :=
+  if s = "1" then some true else if s = "0" then some false else none
+
+def fl (kv : List (String × String)) (k : String) : Option (List Float) :=
+  (lookup kv k) >>= parseList? parseFloatBits?
+
+def showOut : Option (List Float) → String
+  | none => "bad-op"
+  | some l => "ok " ++ showList showFloatBits l
+
+def kernOf (kv : List (String × String)) : Option (Kern Float) := do
+  let kw ← fl kv "kw"
+  let kg ← fl kv "kg"
+  let kd ← fl kv "kd"
+  let kh ← fl kv "kh"
+  let dp ← (lookup kv "deltap") >>= parseFloatBits?
+  if kw.length % 3 ≠ 0 ∨ kg.length % 5 ≠ 0 ∨ kd.length % 3 ≠ 0 ∨ kh.length % 3 ≠ 0 then none
+  else pure (tableKern kw kg kd kh dp)
+
+def handle (line : String) : String :=
+  match tokens line with
+  | [] => "bad-op"
+  | cmd :: rest =>
+    let kv := kvs rest
+    if cmd = "names" then
+      "ok " ++ ",".intercalate P.fieldNames ++ " " ++ ",".intercalate preNames
+        ++ " " ++ ",".intercalate handledTags
+    else if cmd = "loop" then
+      match lookup kv "tag", fl kv "sf", (lookup kv "sb") >>= parseList? parseBool?,
+            fl kv "acc", fl kv "d", fl kv "dc", fl kv "s", fl kv "pre" with
+      | some tag, some sf, some sb, some acc, some d, some dc, some s, some pre =>
+        showOut (runLoop floatOps nan tag sf sb acc d dc s pre)
+      | _, _, _, _, _, _, _, _ => "bad-op"
+    else if cmd = "pair" then
+      match lookup kv "tag", fl kv "sf", (lookup kv "sb") >>= parseList? parseBool?,
+            fl kv "acc", fl kv "a", fl kv "b", kernOf kv with
+      | some tag, some sf, some sb, some acc, some a, some b, some k =>
+        showOut (runPair floatOps k nan tag sf sb acc a b)
+      | _, _, _, _, _, _, _ => "bad-op"
+    else if cmd = "pre" then
+      match fl kv "a", fl kv "b", kernOf kv with
+      | some a, some b, some k => showOut (runPre floatOps k nan a b)
+      | _, _, _ => "bad-op"
+    else "bad-op"
+
+end PysphVerif.Driver.C09
+
+def main : IO Unit := PysphVerif.Driver.loopPure PysphVerif.Driver.C09.handle
